@@ -1,0 +1,33 @@
+//go:build verif
+
+// Contracts for the ECDSA key encoders (comment-only; installed by /verif/gcv gen-contracts).
+
+package ecdsa
+
+// The key encoders: the public key is exactly the bytes its point's own Bytes() returned (an array, captured at the
+// call), the private key is these bytes followed by the bytes of the scalar, unchanged; results are fresh slices of the
+// documented sizes and the keys are not written.
+//@ func PublicKey.Bytes
+//@ option nomerge
+//@ option opaque-calls
+//@ ghost encoded = false
+//@ cut after call Bytes #1
+//@ + ghost encoded = true
+//@ ensures[length] len(result) == sizePublicKey
+//@ ensures[point] encoded && forall(j, 0, sizePublicKey, result[j] == resultof_Bytes[j])
+//@ ensures[fresh] fresh(result)
+//@ modifies nothing
+//@ end
+
+//@ func PrivateKey.Bytes
+//@ option nomerge
+//@ option opaque-calls
+//@ ghost encoded = false
+//@ cut after call Bytes #1
+//@ + ghost encoded = true
+//@ ensures[length] len(result) == sizePrivateKey
+//@ ensures[point] encoded && forall(j, 0, sizePublicKey, result[j] == resultof_Bytes[j])
+//@ ensures[scalar] forall(j, 0, sizeFr, result[sizePublicKey + j] == privKey.scalar[j])
+//@ ensures[fresh] fresh(result)
+//@ modifies nothing
+//@ end
